@@ -113,7 +113,7 @@ func c02sExec(t *testing.T, p c02sPart, prefix []int, expect []string, trace boo
 			case "merge-new-C":
 				id := "cccccccc-0000-4000-8000-000000000001"
 				sil := &pb.Silence{Id: id, MatcherSets: vMatchersA(), StartsAt: ts(now), EndsAt: ts(now.Add(100 * vU)), UpdatedAt: ts(now), Comment: "c"}
-				b, _ := marshalMeshSilence(&pb.MeshSilence{Silence: sil, ExpiresAt: ts(now.Add(100*vU + vRetention))})
+				b, _ := vMarshalMesh(&pb.MeshSilence{Silence: sil, ExpiresAt: ts(now.Add(100*vU + vRetention))})
 				if err := y.s.Merge(b); err != nil {
 					panic(err)
 				}
